@@ -95,10 +95,17 @@ class JacWorld(World):
             lin = bool(fd.get("linear"))
             w = self
 
+            buf = np.zeros(osh, dtype=dtype) if op.get("buffered") else None
+
             def h(y, **kw):
                 w.peer_call("F")
                 z = W1 @ np.asarray(y).reshape(-1) + b
-                return (W2 @ (z if lin else np.tanh(z))).reshape(osh)
+                val = (W2 @ (z if lin else np.tanh(z))).reshape(osh)
+                if buf is not None:
+                    # a function that writes into a preallocated work array and returns that same array on every call
+                    buf[...] = val
+                    return buf
+                return val
             y = np.asarray(op["y"], dtype=np.float64).astype(dtype).reshape(ish)
             z = W1 @ y.reshape(-1) + b
             dz = np.ones_like(z) if lin else (1 - np.tanh(z) ** 2)
@@ -195,7 +202,7 @@ class C16(Prop):
                 osh = r.choice([[1], [2], [3], [5], [2, 3], [2, 1, 2]])
                 n_, m_ = int(np.prod(ish)), int(np.prod(osh))
                 hd = r.choice([2, 3, 4])
-                ops.append({"op": "wrapper", "base_order": r.choice([2, 3, 4, 5, 5, 7]),
+                ops.append({"op": "wrapper", "buffered": bool(r.random() < 0.3), "base_order": r.choice([2, 3, 4, 5, 5, 7]),
                             "fd": {"in_shape": ish, "out_shape": osh, "W1": [gen.rnd(r, -1, 1, 3) for _ in range(hd * n_)],
                                    "W2": [gen.rnd(r, -1, 1, 3) for _ in range(m_ * hd)], "b": [gen.rnd(r, -0.5, 0.5, 3) for _ in range(hd)],
                                    "linear": bool(r.random() < 0.3)},
